@@ -32,14 +32,30 @@ def corpus():
     texts = {"A": A, "B": B, "C": C, "D": D, "X": X, "Y": Y, "Z": Z}
     # the same text under a selection is another 'text' of the corpus
     texts["As"] = A
-    wants = {"As": [["DRUMS", "HARD"], ["KEYS", "EASY"]]}
+    # M: eight tracks, parsed under a selection of six of them (the selection is part of the 'text')
+    body = lambda k: [f"{10 * k} = N {k % 5} 0", f"{10 * k + 100} = N {(k + 1) % 5} 30", f"{10 * k + 100} = S 2 10"]   # noqa: E731
+    hs = ["ExpertSingle", "HardSingle", "MediumSingle", "EasySingle", "ExpertDoubleBass", "HardDoubleBass", "ExpertDrums", "ExpertKeyboard"]
+    M = chart_text(res=192, song=['Name = "M"'], sync=sync, events=ev, tracks={h: body(k) for k, h in enumerate(hs)})
+    texts["M"] = M
+    texts["Ms"] = M
+    wants = {"As": [["DRUMS", "HARD"], ["KEYS", "EASY"]],
+             "Ms": [["KEYS", "EXPERT"], ["GUITAR", "EASY"], ["BASS", "HARD"], ["GUITAR", "EXPERT"], ["DRUMS", "EXPERT"], ["GUITAR", "MEDIUM"]]}
     return texts, wants
 
 
-def run_jobs(texts, wants, jobs, measure=False, timeout=600):
+_HASHSEEDS = ["0", "1", "2", "3", "12345", "4294967295", "random"]
+_job_counter = [0]
+
+
+def run_jobs(texts, wants, jobs, measure=False, timeout=600, hashseed=None):
+    """One fresh interpreter.  A fresh interpreter has its own string-hash seed: the reference parses use seed 0,
+    every other interpreter a different one (cycling through fixed seeds and 'random')."""
+    if hashseed is None:
+        _job_counter[0] += 1
+        hashseed = _HASHSEEDS[_job_counter[0] % len(_HASHSEEDS)]
     payload = json.dumps({"repo": str(REPO), "texts": texts, "wants": wants, "jobs": jobs, "measure": measure})
     p = subprocess.run([PY, str(VERIF / "harness" / "purity_runner.py")], input=payload, capture_output=True, text=True,
-                       env=child_env(), timeout=timeout)
+                       env=child_env({"PYTHONHASHSEED": hashseed}), timeout=timeout)
     if p.returncode != 0:
         raise MachineryError("purity runner failed: " + p.stderr[-2000:])
     return [json.loads(ln) for ln in p.stdout.splitlines() if ln.startswith("{")]
@@ -62,7 +78,7 @@ def run(ctx):
     # ---- reference: every text parsed alone in a fresh interpreter; switch points per text
     names = list(texts)
     with cf.ThreadPoolExecutor(max_workers=WORKERS) as ex:
-        refs = list(ex.map(lambda n: run_jobs(texts, wants, [{"kind": "history", "seq": [n]}])[0], names))
+        refs = list(ex.map(lambda n: run_jobs(texts, wants, [{"kind": "history", "seq": [n]}], hashseed="0")[0], names))
     want = {n: ref["parses"][0]["got"] for n, ref in zip(names, refs)}
     ctx.extra["reference_digests"] = want
     pts = run_jobs(texts, wants, [], measure=True)[0]["points"]
@@ -84,7 +100,7 @@ def run(ctx):
         seq = th[sorted(th)[0]] if isinstance(th, dict) else th[0]
         if seq:
             seqs.append(seq)
-    seqs += [["Z", "A"], ["Z", "B", "A"], ["A", "Z", "A"], ["Z", "X", "Z", "A"], ["Z", "C", "D"], ["As", "A", "As"], ["A", "As"], ["X", "As", "A"], ["Y", "X", "Y", "A", "B", "A"], ["B", "A", "B", "A", "C", "D", "C"]]
+    seqs += [["Ms"], ["M"], ["Ms", "M", "Ms"], ["Ms"], ["Ms"], ["Ms"], ["Ms"], ["Ms"], ["M", "Ms"], ["Z", "A"], ["Z", "B", "A"], ["A", "Z", "A"], ["Z", "X", "Z", "A"], ["Z", "C", "D"], ["As", "A", "As"], ["A", "As"], ["X", "As", "A"], ["Y", "X", "Y", "A", "B", "A"], ["B", "A", "B", "A", "C", "D", "C"]]
     for _ in range(ctx.pick(40, 600)):
         seqs.append([r.choice(names) for _ in range(r.randrange(4, 9))])
     with cf.ThreadPoolExecutor(max_workers=WORKERS) as ex:
@@ -164,7 +180,7 @@ def replay(ctx, obj):
     texts, wants = corpus()
     d = obj["detail"]
     names = list(texts)
-    want = {n: run_jobs(texts, wants, [{"kind": "history", "seq": [n]}])[0]["parses"][0]["got"] for n in names}
+    want = {n: run_jobs(texts, wants, [{"kind": "history", "seq": [n]}], hashseed="0")[0]["parses"][0]["got"] for n in names}
     if obj["kind"] == "history":
         job = {"kind": "history", "seq": d["history"]}
     elif obj["kind"] == "stress":
